@@ -164,3 +164,20 @@ Proof.
 Qed.
 
 End Alias.
+
+(** *** round 5.  Account.Status() deciding from the state tag of the Account
+    variant alone (outer tag ignored, empty tag = non-existent): after an active
+    record, a poll that finds the account deleted still reports the stale active
+    record, so the stale seqno is signed without state-init. *)
+Definition var_status_inner (v : acct_var) : res acct :=
+  match av_inner v with Some st => Ok st | None => Ok ANone end.
+
+Lemma status_from_inner_tag_refuted :
+  exists v rec, var_status_inner (decode_into v rec) <> Ok rec.
+Proof.
+  exists (decode_into fresh_var (AActive (ocell [] []))), ANone. cbn. discriminate.
+Qed.
+
+(* on fresh variables the two agree, which is why literals never show it *)
+Lemma status_from_inner_tag_fresh rec : var_status_inner (decode_into fresh_var rec) = Ok rec.
+Proof. destruct rec; reflexivity. Qed.
